@@ -113,34 +113,51 @@ CORPUS_QUERIES = [
 ]
 
 
+# documents on which a walk has three or more runs of siblings pending at once
+# (what "pick the oldest or the newest run" style shortcuts get wrong); always in
+# the quick tier
+THREE_RUN_DOCS = [
+    [[[1]], [[2]], [[3]]],
+    [[[1]], [[2]], [3]],
+    [[[1], [2]], [3], [4]],
+    [[[1]], [[2]], [3]],
+    {"a": [[1]], "b": [[2]], "c": [3]},
+    [[[1], [[2]]], [3]],
+    [4, [{"a": 9, "b": 5}, [7]], [8]],
+]
+
+
 def _build_corpus() -> List[Tuple[Dict[str, Any], Any]]:
     docs: List[Any] = []
     seen = set()
-    for n in range(2, 7):
+    for n in range(2, 8):
         for tree in _ordered_trees(n):
-            for kinds in ("l", "d", "ld", "dl"):
+            # 7 containers: arrays only (runs are shared by the elements of one
+            # array, so the rarest ordering keeps a probability the budget can see)
+            for kinds in ("l", "d", "ld", "dl") if n <= 6 else ("l",):
                 doc = _label(tree, kinds, 0, [0])
                 key = repr(doc)
                 if key not in seen:
                     seen.add(key)
                     docs.append(doc)
-    # the shape the design phase found by hand, and friends
-    for extra in ([[[1], [2]], [3], [4]], [[[1], [2]], [3]], [4, [{"a": 9, "b": 5}, [7]], [8]]):
-        if repr(extra) not in seen:
-            seen.add(repr(extra))
-            docs.append(extra)
+    for extra in THREE_RUN_DOCS:
+        if repr(extra) in seen:
+            docs.remove(extra)
+        seen.add(repr(extra))
+        docs.append(extra)
     return [(q, d) for d in docs for q in CORPUS_QUERIES]
 
 
 CORPUS = _build_corpus()
-QUICK_CORPUS_STRIDE = 23  # quick tier: every 23rd corpus case (+ the hand-found ones at the end)
+QUICK_CORPUS_STRIDE = 41  # quick tier: every 41st corpus case + all THREE_RUN_DOCS cases at the end
+EXHAUST_CAP = {"quick": 64, "thorough": 256}
 
 
 def corpus_for(tier: str) -> List[int]:
     if tier == "thorough":
         return list(range(len(CORPUS)))
     idx = list(range(0, len(CORPUS), QUICK_CORPUS_STRIDE))
-    tail = list(range(len(CORPUS) - 3 * len(CORPUS_QUERIES), len(CORPUS)))
+    tail = list(range(len(CORPUS) - len(THREE_RUN_DOCS) * len(CORPUS_QUERIES), len(CORPUS)))
     return sorted(set(idx + tail))
 
 
@@ -205,6 +222,7 @@ def check_case(
     exhaust_budget: int = 0,
     exhaust_seed: int = 0,
     corpus_index: Optional[int] = None,
+    exhaust_cap: int = 64,
 ) -> Dict[str, Any]:
     """Validity on the given streams; if exhaust_budget > 0 also reached-set search."""
     text = Q.render(qast)
@@ -239,9 +257,8 @@ def check_case(
         locs, exc, ident, trace, draws = run_stream(text, doc, sseed, profile, feed)
         st["streams"] += 1
         out["steps"] += len(trace)
-        st["decisions_choice"] += sum(1 for t in trace if t[0] == "choice")
-        st["decisions_shuffle"] += sum(1 for t in trace if t[0] == "shuffle")
-        st["decisions_sample"] += sum(1 for t in trace if t[0] == "sample")
+        for t in trace:
+            st["decisions_" + t[0]] += 1
         payload = {
             "kind": "validity",
             "query": qast,
@@ -280,7 +297,7 @@ def check_case(
     for sseed, profile, feed in streams:
         one(sseed, profile, feed)
 
-    if exhaust_budget and permitted is not None and 2 <= len(permitted) <= 64 and not out["violations"]:
+    if exhaust_budget and permitted is not None and 2 <= len(permitted) <= exhaust_cap and not out["violations"]:
         st["exhaust_cases"] += 1
         rng = seeds.stream(exhaust_seed, "choices")
         k = 0
@@ -314,6 +331,7 @@ def check_case(
                         "doc": doc,
                         "corpus_index": corpus_index,
                         "budget": exhaust_budget,
+                        "exhaust_cap": exhaust_cap,
                         "exhaust_seed": exhaust_seed,
                         "missing_example": _jsonable_seq(m0),
                         "n_missing": len(missing),
@@ -364,7 +382,7 @@ def run_one(seed: int, tier: str, index: int) -> Dict[str, Any]:
         rng = seeds.stream(seed, "choices")
         streams = [(rng.getrandbits(48), simrandom.draw_profile(rng), None) for _ in range(8)]
         budget = 200_000 if tier == "thorough" else 20_000
-        res = check_case(q, doc, streams, exhaust_budget=budget, exhaust_seed=seed, corpus_index=ci)
+        res = check_case(q, doc, streams, exhaust_budget=budget, exhaust_seed=seed, corpus_index=ci, exhaust_cap=EXHAUST_CAP[tier])
         res["stats"]["runs_corpus"] += 1
     else:
         wl = seeds.stream(seed, "workload")
@@ -398,7 +416,7 @@ def replay(payload: Dict[str, Any]) -> List[Dict[str, Any]]:
         s = payload["stream"]
         res = check_case(q, doc, [(s["seed"], s["profile"], s.get("trace"))])
         return res["violations"]
-    res = check_case(q, doc, [], exhaust_budget=payload["budget"], exhaust_seed=payload["exhaust_seed"], corpus_index=payload.get("corpus_index"))
+    res = check_case(q, doc, [], exhaust_budget=payload["budget"], exhaust_seed=payload["exhaust_seed"], corpus_index=payload.get("corpus_index"), exhaust_cap=payload.get("exhaust_cap", 64))
     return res["violations"]
 
 
